@@ -1,6 +1,6 @@
 SPECIFICATION Spec
 CONSTANTS
-  Models <- MC_Models
+  Models <- MC_Models0
   Solvers <- MC_Solvers2
   Blocks <- MC_Blocks
   Shape <- MC_Shape
